@@ -36,6 +36,7 @@ TOK = re.compile(r"""
  | (?P<op>::|->|=>|==|!=|<=|>=|&&|\|\||\.\.=|\.\.|\+=|-=|\*=|/=|<<|>>|[-+*/%^!&|=<>@.,;:#$?~(){}\[\]])
 """, re.X | re.S)
 
+FUEL_FNS = set()                       # translated functions that take a `fuel` argument (they contain a `while` loop)
 LOCAL_STRUCTS, LOCAL_DROPS = {}, {}    # structs / Drop impls declared inside the body being translated
 
 class Bad(Exception):
@@ -1055,6 +1056,10 @@ class Lower:
         raise Bad(f"expression kind {t}")
 
     def app(self, head, args, wrap):
+        if head in FUEL_FNS:
+            # the callee contains a `while` loop: it takes fuel, and so does the caller
+            args = list(args) + ["fuel"]
+            self.uses_fuel = True
         s = head + "".join(" " + a for a in args)
         return f"call ({s})" if wrap else s
 
@@ -1315,6 +1320,11 @@ TARGETS = [
     ("lib.rs", "impl LeanString", "len", "LeanString.len", True),
     ("lib.rs", "impl LeanString", "is_heap_allocated", "LeanString.is_heap_allocated", True),
     ("lib.rs", "impl LeanString", "try_with_capacity", "LeanString.try_with_capacity", True),
+    ("lib.rs", "impl LeanString", "is_empty", "LeanString.is_empty", True),
+    ("lib.rs", "impl LeanString", "as_str", "LeanString.as_str", True),
+    ("lib.rs", "impl LeanString", "as_bytes", "LeanString.as_bytes", True, {"trust_sig": True}),
+    ("lib.rs", "impl LeanString", "try_retain", "LeanString.try_retain", True),
+    ("lib.rs", "impl LeanString", "retain", "LeanString.retain", True),
     ("lib.rs", "impl LeanString", "with_capacity", "LeanString.with_capacity", True),
     ("lib.rs", "impl LeanString", "reserve", "LeanString.reserve", True),
     ("lib.rs", "impl LeanString", "shrink_to_fit", "LeanString.shrink_to_fit", True),
@@ -1390,6 +1400,9 @@ SIGS = {
     "LeanString.try_insert_str": ([("idx", "Nat"), ("string", "Str")], "Rs Unit"),
     "LeanString.try_truncate": ([("new_len", "Nat")], "Rs Unit"), "LeanString.capacity": ([], "Nat"), "LeanString.len": ([], "Nat"),
     "LeanString.is_heap_allocated": ([], "Bool"),
+    "LeanString.is_empty": ([], "Bool"), "LeanString.as_str": ([], "Str"), "LeanString.as_bytes": ([], "RawSlice"),
+    "LeanString.try_retain": ([("predicate", "Pred"), ("fuel", "Nat")], "Rs Unit"),
+    "LeanString.retain": ([("predicate", "Pred"), ("fuel", "Nat")], "Unit"),
     "LeanString.try_with_capacity": ([("capacity", "Nat")], "Rs Handle"), "LeanString.with_capacity": ([("capacity", "Nat")], "Handle"),
     "LeanString.reserve": ([("additional", "Nat")], "Unit"), "LeanString.shrink_to_fit": ([], "Unit"),
     "LeanString.shrink_to": ([("min_capacity", "Nat")], "Unit"), "LeanString.push": ([("ch", "Chr")], "Unit"),
@@ -1481,6 +1494,7 @@ def translate_one(srcs, cache, file, header, fn, lname, self_field, generated, o
         raise Bad("a drop guard is still alive at the end of the function (only an explicit `drop(g)` is translated)")
     if lo.uses_fuel:
         lps = lps + [("fuel", "Nat")]
+        FUEL_FNS.add(lname)
     if [t for _, t in lps] != [t for _, t in exp[0]] and not opts.get("trust_sig"):
         raise Bad(f"signature changed: ({lps}) -> {rt}")
     sig = "".join(f" ({n} : {t})" for n, t in lps)
